@@ -80,32 +80,33 @@ def run(rep: Report, tier: str) -> None:
                             f"save_datapoints_duckdb is not given the caller's {a_name}"))
     # decision table of save_datapoints_duckdb
     sv = P.func(f"{IO}.save_datapoints_duckdb")
-    for fmt in ("csv", "parquet"):
+    import pathlib as _pl
+    for fmt, dsname in (("csv", "DS_r"), ("parquet", "DS_r"), ("csv", "RES.A"), ("parquet", "RES.A")):  # VTL identifiers may contain dots
         for select in ("SELECT 1 AS x", None):
             for delete in (False, True):
                 executed: List[str] = []
-                it = Interp(P)
+                it = Interp(P, externals={"Path": lambda *a: _pl.PurePosixPath(*[str(x) for x in a])})
                 conn = ExternalObj({"execute": lambda q, executed=executed: executed.append(q)})
                 try:
-                    it.call(sv, {"conn": conn, "dataset_name": "DS_r", "output_path": FakePath("/out"), "delete_after_save": delete,
+                    it.call(sv, {"conn": conn, "dataset_name": dsname, "output_path": FakePath("/out"), "delete_after_save": delete,
                                  "select_sql": select, "output_format": fmt})
                 except Raised as r:
                     rep.add(Finding("R14.1", f"R14.1/save-raises/{fmt}", sv.module.rel, sv.node.lineno, sv.qualname,
                                     f"save_datapoints_duckdb raises {r.exc} for output_format={fmt!r}"))
                     continue
-                key = f"save/{fmt}/{'select' if select else 'table'}/{'delete' if delete else 'keep'}"
+                key = f"save/{fmt}/{dsname}/{'select' if select else 'table'}/{'delete' if delete else 'keep'}"
                 copies = [q for q in executed if q.lstrip().upper().startswith("COPY")]
                 drops = [q for q in executed if q.lstrip().upper().startswith("DROP")]
                 rep.instance("R14.1", key, nontrivial=True, sample={"case": key, "sql": executed})
-                want_src = f"({select})" if select else '"DS_r"'
+                want_src = f"({select})" if select else f'"{dsname}"'
                 ok = len(copies) == 1 and copies[0].split(" TO ")[0].strip() == f"COPY {want_src}" \
-                    and f"'/out/DS_r.{fmt}'" in copies[0] \
+                    and f"'/out/{dsname}.{fmt}'" in copies[0] \
                     and (("PARQUET" in copies[0].upper()) == (fmt == "parquet")) \
                     and (fmt != "csv" or "HEADER" in copies[0].upper())
                 if not ok:
                     rep.add(Finding("R14.1", f"R14.1/{key}", sv.module.rel, sv.node.lineno, sv.qualname,
                                     f"for output_format={fmt!r}, select_sql={select!r} the COPY statement is {copies}: expected "
-                                    f"`COPY {want_src} TO '<folder>/DS_r.{fmt}'` with the matching FORMAT"))
+                                    f"`COPY {want_src} TO '<folder>/{dsname}.{fmt}'` with the matching FORMAT (one file per dataset, named after the dataset)"))
                 if bool(drops) != delete:
                     rep.add(Finding("R14.1", f"R14.1/drop/{key}", sv.module.rel, sv.node.lineno, sv.qualname,
                                     f"delete_after_save={delete} but DROP statements executed: {drops}"))
